@@ -31,7 +31,7 @@ src/Neigh/NeighImage.cpp src/Polygon/Polygons.cpp src/Polygon/PolyElem.cpp src/V
 OTHER_UNITS = """src/Basic/ASerializable.cpp src/Basic/File.cpp src/Core/io.cpp src/Core/ascii.cpp src/Core/convert.cpp src/Core/db.cpp
 src/Db/PtrGeos.cpp src/OutputFormat/AOF.cpp src/OutputFormat/FileLAS.cpp src/OutputFormat/FileVTK.cpp src/OutputFormat/GridArcGis.cpp
 src/OutputFormat/GridBmp.cpp src/OutputFormat/GridEclipse.cpp src/OutputFormat/GridF2G.cpp src/OutputFormat/GridIfpEn.cpp
-src/OutputFormat/GridIrap.cpp src/OutputFormat/GridXYZ.cpp src/OutputFormat/GridZycor.cpp""".split()
+src/OutputFormat/GridIrap.cpp src/OutputFormat/GridXYZ.cpp src/OutputFormat/GridZycor.cpp src/Core/variopgs.cpp""".split()
 
 READ_PRIMS = ("ASerializable::_recordRead", "ASerializable::_recordReadVec", "ASerializable::_recordReadVecInPlace",
               "ASerializable::_tableRead")
